@@ -113,6 +113,15 @@ fn run_op(l: &mut Listing, words: &[&str], spec: bool) -> Option<String> {
             l.indirect_errors = Arc::new(es);
             "ok".into()
         }
+        ["load", t] => match l.load_str(&unhex(t)) {
+            // one line of a file being LOADed
+            Ok(()) => "ok".into(),
+            Err(e) => err_or(&e),
+        },
+        ["load"] => match l.load_str("") {
+            Ok(()) => "ok".into(),
+            Err(e) => err_or(&e),
+        },
         ["renum", a, b, c] => {
             let (a, b, c): (u16, u16, u16) = (a.parse().ok()?, b.parse().ok()?, c.parse().ok()?);
             match l.renum(a, b, c) {
@@ -404,8 +413,54 @@ pub fn gen_history(rng: &mut Rng, maxlen: usize, spec: bool) -> String {
     ops.join(";")
 }
 
+/// LOAD: a file is fed line by line through `load_str` (numbered lines insert/replace, a bare
+/// number deletes, a line without a number or an over-long line is an error and changes nothing)
+fn gen_load<W: Write>(w: &mut W, tier: &str, rng: &mut Rng) {
+    let bodies = ["PRINT 1", "REM x", "A=A+1", "print \"a  b\";x", "?1:'r", "X=1E5", "  PRINT   2  ", "", " ", "\t", "'", "é=1", "\"", "1", "PRINT 1\r", "\u{a0}"];
+    let nums = ["0", "1", "10", "  10", "10 ", "65529", "65530", "99999", "007", "1e", "", " "];
+    for n in nums {
+        for b in bodies {
+            let file = format!("{}{}{}", n, if n.is_empty() || b.is_empty() { "" } else { " " }, b);
+            emit(w, "K", &format!("LST ins 10 {};ins 20 {};load {};list - 65529", hex("REM a"), hex("REM b"), hex(&file)));
+            emit(w, "K", &format!("LST load {};load {};list - 65529", hex(&file), hex(&format!("{}{}", n, b))));
+        }
+    }
+    // the line length limit (1024 bytes, multi-byte characters count by their bytes)
+    for len in [1018usize, 1019, 1020, 1021, 1022, 1023, 1024, 1025, 2000] {
+        let l = format!("10 REM {}", "x".repeat(len.saturating_sub(7)));
+        emit(w, "K", &format!("LST load {};empty", hex(&l)));
+        let l = format!("10 REM {}", "é".repeat(len.saturating_sub(7) / 2));
+        emit(w, "K", &format!("LST load {};empty", hex(&l)));
+    }
+    // ... and the limit applies to the LISTED text (? -> PRINT, a closed string): D19
+    for n in 165usize..176 {
+        emit(w, "K", &format!("LST load {};list - 65529", hex(&format!("10 {}", "?:".repeat(n)))));
+    }
+    for n in 1008usize..1016 {
+        emit(w, "K", &format!("LST load {};list - 65529", hex(&format!("10 PRINT \"{}", "x".repeat(n)))));
+        emit(w, "K", &format!("LST load {};list - 65529", hex(&format!("10 PRINT \"{}", "é".repeat(n / 2)))));
+    }
+    let n = if tier == "thorough" { 20_000 } else { 500 };
+    for _ in 0..n {
+        let k = 1 + rng.below(8);
+        let mut ops: Vec<String> = vec![];
+        for _ in 0..k {
+            let num = *rng.pick(&["5", "10", "10", "20", "65529", "0", ""]);
+            let body = *rng.pick(&bodies);
+            match rng.below(6) {
+                0 => ops.push(format!("load {}", hex(num))),
+                1 => ops.push(format!("ins {} {}", if num.is_empty() { "7" } else { num }, hex("REM i"))),
+                _ => ops.push(format!("load {}", hex(&format!("{} {}", num, body)))),
+            }
+        }
+        ops.push("list - 65529".into());
+        emit(w, "K", &format!("LST {}", ops.join(";")));
+    }
+}
+
 pub fn gen_rand<W: Write>(w: &mut W, tier: &str, seed: u64) {
     let mut rng = Rng::new(seed ^ 0x1157);
+    gen_load(w, tier, &mut rng);
     let n = if tier == "thorough" { 1_000_000 } else { 10_000 };
     for i in 0..n {
         if i % 4 == 3 {
